@@ -1190,6 +1190,15 @@ fn shrink_tree(t: &DAst) -> Vec<DAst> {
 /// Further applications on the same operator value (a third of the scenarios): each with its own input and
 /// its own fault position (or none).
 fn gen_more(g: &mut Xo, max_fault: usize) -> Vec<(Option<usize>, u64, usize)> {
+    if g.chance(1, 3000) {
+        // a LONG SESSION: 1200 further applications on the same operator value (cumulative effects)
+        return (0..1200)
+            .map(|_| {
+                let fault = if g.chance(3, 4) { None } else { Some(g.usize_below(max_fault.max(1))) };
+                (fault, g.next_u64(), g.urange(0, 3))
+            })
+            .collect();
+    }
     if !g.chance(1, 3) {
         return Vec::new();
     }
@@ -1371,6 +1380,9 @@ impl Check for C14 {
         obs.count("draws", real_rng.draws());
         if apps.len() > 1 {
             obs.hit("probe.operator-value-applied-more-than-once");
+        }
+        if apps.len() > 1000 {
+            obs.hit("probe.long-session-on-one-operator-value");
         }
         let mut any_fired = false;
         let mut calls = 0usize;
